@@ -94,9 +94,22 @@ class StubsLib(StubsBase):
             f = V.mul(f, p) if unit.pik > 0 else V.div(ctx, f, p)
         return f
 
+    def apply_unit(self, ctx, value, unit: Unit, divide=False):
+        """value * scale*(2pi)^pik (or the inverse) without nested inverse symbols."""
+        sc, pik = unit.scale, unit.pik
+        if divide:
+            sc, pik = 1 / sc, -pik
+        v = self.scale_val(ctx, value, sc)
+        if pik:
+            tp = V.mul(2, V.PI)
+            p = 1
+            for _ in range(abs(pik)):
+                p = V.mul(p, tp)
+            v = self.scale_val(ctx, v, p, divide=(pik < 0))
+        return v
+
     def q_from_value(self, ctx, value, unit: Unit):
-        f = self.unit_factor(ctx, unit)
-        return Qty(self.scale_val(ctx, value, f), unit.dim, unit)
+        return Qty(self.apply_unit(ctx, value, unit), unit.dim, unit)
 
     def scale_val(self, ctx, value, f, divide=False):
         if not is_sym(f) and f == 1:
@@ -134,7 +147,7 @@ class StubsLib(StubsBase):
             unit = self.units[unit]
         if q.dim != unit.dim:
             raise PyExc("UnitConversionError", f"{q.dim} and {unit.dim} are not convertible")
-        return self.scale_val(ctx, q.val, self.unit_factor(ctx, unit), divide=True)
+        return self.apply_unit(ctx, q.val, unit, divide=True)
 
     def u_isclose(self, ctx, a, b, rtol=Fraction(1, 10 ** 5), atol=None):
         """astropy.units.isclose: |a - b| <= atol + rtol*|b| (atol defaults to 0)."""
@@ -548,15 +561,53 @@ class StubsLib(StubsBase):
             if isinstance(x, SArr):
                 return x if x.backend == "dask" else SArr(x.shape, x.elem, x.dtype, "dask")
             raise Unsupported("da.asanyarray operand")
+        def from_delayed(c, value, shape=None, dtype=None, **k):
+            c.note("stub:da.from_delayed(delayed f(*args)) denotes f(*args), evaluated lazily; declared shape/dtype are trusted by dask")
+            if not isinstance(value, SArr):
+                raise Unsupported("from_delayed of a non-array value")
+            if shape is not None:
+                ok = len(shape) == value.ndim and V.And(*[V.eq(a, b) for a, b in zip(shape, value.shape)])
+                c.oblige("dask.from_delayed.declared-shape", ok if not isinstance(ok, bool) or ok else False, "safety")
+            if dtype is not None:
+                c.oblige("dask.from_delayed.declared-dtype", self.to_dtype(dtype) == value.dtype, "safety")
+            return SArr(value.shape, value.elem, value.dtype, "dask")
+
+        def delayed(c, f, pure=None, **k):
+            c.note("stub:dask.delayed(f)(*args) = f(*args) (pure task)")
+            return Stub(lambda c2, *a, **kw: self.interp.call(f, a, kw, c2), "delayed-call")
         da = NS("dask.array", {
             "Array": da_arr,
+            "from_delayed": Stub(from_delayed, "da.from_delayed"),
             "asanyarray": Stub(asany, "da.asanyarray"),
             "asarray": Stub(asany, "da.asarray"),
             "arange": Stub(lambda c, n, chunks=None: A.arange(c, n, "dask"), "da.arange"),
             "fft": NS("dask.array.fft", {}),
         })
         self.ext["dask.array"] = da
-        self.ext["dask"] = NS("dask", {"array": da})
+        self.ext["dask"] = NS("dask", {"array": da, "delayed": Stub(delayed, "dask.delayed")})
+
+    def instantiate_hook(self, ci, ext_bases):
+        if any("SpecificTypeQuantity" in str(b) or str(b).endswith("Quantity") for b in ext_bases):
+            def make(ctx, ci, args, kwargs):
+                from .interp import Env
+                cls, a = ci.find_attr("_default_unit")
+                unit = self.interp.eval(a, Env(cls.module, None, cls), ctx) if a is not None else Unit(1, {})
+                if len(args) >= 2:
+                    unit = args[1]
+                elif "unit" in kwargs:
+                    unit = kwargs["unit"]
+                val = args[0]
+                if isinstance(val, Qty):
+                    q = self.q_to(ctx, val, unit)
+                    return Qty(q.val, q.dim, unit, ci)
+                q = self.q_from_value(ctx, val, unit)
+                q.cls = ci
+                return q
+            return make
+        return None
+
+    def isinstance_repo(self, v, ci):
+        return isinstance(v, Qty) and v.cls is not None and v.cls.is_subclass(ci)
 
     # ================================================================== dispatch overrides
     def value_getattr(self, v, name, ctx):
@@ -714,7 +765,9 @@ class StubsLib(StubsBase):
         if isinstance(target, SArr):
             ctx.note("stub:ndarray/Quantity augmented assignment mutates in place")
             self.frame_write_arr(target, f"augassign {type(op).__name__}", ctx)
-            new = self.binop(op, cur, rhs, ctx)
+            # operate on a snapshot of the current contents (the element function is replaced below)
+            frozen = SArr(target.shape, target.elem, target.dtype, target.backend)
+            new = self.binop(op, Qty(frozen, cur.dim, cur.unit, cur.cls) if isinstance(cur, Qty) else frozen, rhs, ctx)
             newv = new.val if isinstance(new, Qty) else new
             if not isinstance(newv, SArr):
                 raise Unsupported("in-place op result")
@@ -830,10 +883,10 @@ class StubsLib(StubsBase):
             return self.q_from_value(ctx, b, a)
         if isinstance(a, Qty) and isinstance(b, Unit):
             if isinstance(op, ast.Mult):
-                return Qty(self.scale_val(ctx, a.val, self.unit_factor(ctx, b)), V.dim_mul(a.dim, b.dim),
+                return Qty(self.apply_unit(ctx, a.val, b), V.dim_mul(a.dim, b.dim),
                            self._unit_mul(a.unit or Unit(1, a.dim), b))
             if isinstance(op, ast.Div):
-                return Qty(self.scale_val(ctx, a.val, self.unit_factor(ctx, b), divide=True), V.dim_mul(a.dim, b.dim, -1),
+                return Qty(self.apply_unit(ctx, a.val, b, divide=True), V.dim_mul(a.dim, b.dim, -1),
                            self._unit_mul(a.unit or Unit(1, a.dim), b, -1))
         if isinstance(a, Unit) and isinstance(b, Qty):
             if isinstance(op, ast.Mult):
